@@ -259,21 +259,10 @@ Section G2O.
         | Ok els => Ok (map param_line ps ++ map vertex_line (g_verts g) ++ els)
         end
     end.
-  (* what is on disk after the call: the ValueErrors are raised before the file is opened (None = file not
-     touched); a NotImplementedError of an edge's to_g2o is raised while writing, so the lines written so far stay *)
-  Fixpoint edge_lines_prefix (vs : list vertex) (es : list edge) : list line :=
-    match es with
-    | [] => []
-    | e :: r => match edge_line vs e with
-                | Error _ => []
-                | Ok ol => (match ol with Some l => [l] | None => [] end) ++ edge_lines_prefix vs r
-                end
-    end.
+  (* what is on disk after the call (None = the file is not touched): Graph.to_g2o formats every line
+     first and opens the file only afterwards, so a refused export writes nothing *)
   Definition export_file (g : graph) : option (list line) :=
-    match add_offsets (g_params g) (g_edges g) with
-    | Error _ => None
-    | Ok ps => Some (map param_line ps ++ map vertex_line (g_verts g) ++ edge_lines_prefix (g_verts g) (g_edges g))
-    end.
+    match export g with Ok ls => Some ls | Error _ => None end.
   Definition export_text (g : graph) : result (list string) :=
     match export g with Error x => Error x | Ok ls => Ok (map render ls) end.
 
